@@ -308,6 +308,23 @@ def step (d : D) (line : String) : D × String :=
           else if implRes == want then "ok" else s!"FAIL the query must return {want}, got {implRes}"
         ({ d with sys := s'' }, s!"{res} {canonState s''}\t{impl}\t{verdict}")
     match kind, rest with
+    | "key", seqf =>
+      -- a `CSI r;c R` report with no cursor-position query outstanding: user input
+      match parseSeq seqf with
+      | some (q, k, b64) =>
+        let p := params 1024 b64
+        match next p d.sys (.input q) with
+        | some (.ok s1) =>
+          let (s2, evs, _, _) := perform k p false 64 s1 #[] #[] none
+          let want := s!"K/{k.tok}/{k.et}"
+          let got := evsOf impl
+          let verdict :=
+            if bad then s!"FAIL the input loop did not survive a key report: {impl}"
+            else if got == [want] then "ok"
+            else s!"FAIL no cursor-position query is outstanding, so this report is a key press and must yield exactly {want}; got {got} (user input lost or altered)"
+          ({ d with sys := s2 }, s!"ev={joinA evs} {canonState s2}\t{impl}\t{verdict}")
+        | _ => (d, "not-a-run\tnot-a-run\tbad-op")
+      | none => (d, "bad-op\tbad-op\tbad-op")
     | "cursor", [r, c, mode] =>
       match r.toInt?, c.toInt? with
       | some r, some c =>
